@@ -15,12 +15,12 @@ import (
 // Tuple is one option tuple (the connection key the client is supposed to pool by), chosen from a
 // small product so that equal and nearly-equal tuples are frequent.
 type Tuple struct {
-	Endpoint int  `json:"ep"`     // 0..1 -> path /e0, /e1
-	Proto    int  `json:"proto"`  // ws: 0 graphql-transport-ws, 1 graphql-ws, 2 auto; sse: 0 POST, 1 GET
-	Header   int  `json:"hdr"`    // 0 none, 1 X-T: a, 2 X-T: b
-	Init     int  `json:"init"`   // ws only: 0 nil, 1 {"t":"a"}, 2 {"t":"b"}
-	SSE      bool `json:"sse"`    // transport
-	Gate     bool `json:"gate"`   // upstream holds connection_ack (ws) / the response headers (sse) until an "ack" step
+	Endpoint int  `json:"ep"`    // 0..1 -> path /e0, /e1
+	Proto    int  `json:"proto"` // ws: 0 graphql-transport-ws, 1 graphql-ws, 2 auto; sse: 0 POST, 1 GET
+	Header   int  `json:"hdr"`   // index into headerSets: 0 none, 1 X-T: a, 2 X-T: b, 3.. multi-valued / second key / other key spelling
+	Init     int  `json:"init"`  // ws only: 0 nil, 1 {"t":"a"}, 2 {"t":"b"}
+	SSE      bool `json:"sse"`   // transport
+	Gate     bool `json:"gate"`  // upstream holds connection_ack (ws) / the response headers (sse) until an "ack" step
 }
 
 // Sub is one Subscribe call: option tuple + what the upstream will send for it.
@@ -29,15 +29,16 @@ type Sub struct {
 	Nexts int    `json:"nexts"` // number of next messages in the script
 	Term  string `json:"term"`  // "complete" | "error" | "none"
 	// burst parts only: cancel point
-	Cancel string `json:"cancel,omitempty"` // "" never | "pre" ctx already cancelled | "race" right after launch | "init" after upstream saw the init (+settle) | "mid" after CancelAt messages
-	At     int    `json:"at,omitempty"`
+	Deadline bool   `json:"deadline,omitempty"` // burst: the cancel point is the expiry of the subscriber's own deadline (ctx.Err() == DeadlineExceeded) instead of a cancel
+	Cancel   string `json:"cancel,omitempty"`   // "" never | "pre" ctx already cancelled | "race" right after launch | "init" after upstream saw the init (+settle) | "mid" after CancelAt messages
+	At       int    `json:"at,omitempty"`
 }
 
 // Step is one scheduled action of a stepped case. After every step the harness waits for the
 // step's observable effect (at the upstream or at a handler), never for wall-clock time, except
 // for the one-sided settle interval when a subscriber is expected to join a dial in progress.
 type Step struct {
-	Op  string `json:"op"`            // sub | cancel | send | ack | drop | idle | silence | ticks (Key = number of ping intervals to let pass)
+	Op  string `json:"op"`            // sub | cancel | expire (the subscriber's own context deadline passes) | send | ack | drop | idle | silence | ticks (Key = number of ping intervals to let pass)
 	Sub int    `json:"sub,omitempty"` // sub, cancel, send
 	Key int    `json:"key,omitempty"` // ack, drop: tuple index
 }
@@ -49,7 +50,7 @@ type Case struct {
 	Steer       bool    `json:"steer"`        // generator avoided the known-finding classes by construction (informational)
 	Tuples      []Tuple `json:"tuples"`
 	Subs        []Sub   `json:"subs"`
-	Burst       bool    `json:"burst"`           // false: stepped mode (Steps), true: burst mode
+	Burst       bool    `json:"burst"` // false: stepped mode (Steps), true: burst mode
 	Steps       []Step  `json:"steps,omitempty"`
 	// burst mode: all Subscribe calls start together, the upstream streams every script
 	// as soon as it sees the subscribe; DropAfter[k] >= 0 drops a connection of tuple k after that many
@@ -78,6 +79,19 @@ func (c Case) silentTuple(k int) bool {
 	return false
 }
 
+// hasDeadline reports whether subscription i is scripted to run into its own deadline.
+func (c Case) hasDeadline(i int) bool {
+	if c.Subs[i].Deadline {
+		return true
+	}
+	for _, s := range c.Steps {
+		if s.Op == "expire" && s.Sub == i {
+			return true
+		}
+	}
+	return false
+}
+
 func (c Case) stepped() bool { return !c.Burst }
 
 func (c Case) key() string { b, _ := json.Marshal(c); return string(b) }
@@ -86,14 +100,66 @@ func (c Case) key() string { b, _ := json.Marshal(c); return string(b) }
 
 var wsProtoName = []string{"graphql-transport-ws", "graphql-ws", "auto"}
 
-func (t Tuple) headerValue() string {
-	switch t.Header {
-	case 1:
-		return "a"
-	case 2:
-		return "b"
+// headerSets is the small universe of request headers. Beyond "none / one value" it has what a
+// connection key must not blur: several values under one key (later value differs, order differs,
+// count differs), a second key, and a key spelled non-canonically (same wire form as its canonical
+// twin, so the two never occur together in one case).
+var headerSets = []http.Header{
+	0:  nil,
+	1:  {"X-T": {"a"}},
+	2:  {"X-T": {"b"}},
+	3:  {"X-T": {"a", "b"}},
+	4:  {"X-T": {"a", "c"}},
+	5:  {"X-T": {"b", "a"}},
+	6:  {"X-T": {"a", "b", "c"}},
+	7:  {"X-T": {"a"}, "X-U": {"u"}},
+	8:  {"X-T": {"a"}, "X-U": {"u", "v"}},
+	9:  {"x-t": {"a", "b"}},
+	10: {"x-t": {"a", "c"}},
+	11: {"x-t": {"b"}},
+}
+
+// headerCanon is the header set as the upstream sees it: canonical key spelling, every value, in order.
+func headerCanon(h http.Header) string {
+	var t, u []string
+	for k, v := range h {
+		switch http.CanonicalHeaderKey(k) {
+		case "X-T":
+			t = append(t, v...)
+		case "X-U":
+			u = append(u, v...)
+		}
 	}
-	return ""
+	s := strings.Join(t, ",")
+	if len(u) > 0 {
+		s += ";X-U=" + strings.Join(u, ",")
+	}
+	return s
+}
+
+func (t Tuple) headers() http.Header {
+	if t.Header <= 0 || t.Header >= len(headerSets) {
+		return nil
+	}
+	return headerSets[t.Header].Clone()
+}
+
+func (t Tuple) headerValue() string { return headerCanon(t.headers()) }
+
+// sameFirstValues reports whether two header sets have the same keys (as spelled) and the same first
+// value under each key while not being the same set: exactly what a key that hashes only values[0] blurs.
+func sameFirstValues(a, b int) bool {
+	ha, hb := headerSets[a], headerSets[b]
+	if a == b || len(ha) != len(hb) || len(ha) == 0 || headerCanon(ha) == headerCanon(hb) {
+		return false
+	}
+	for k, v := range ha {
+		w, ok := hb[k]
+		if !ok || len(v) == 0 || len(w) == 0 || v[0] != w[0] {
+			return false
+		}
+	}
+	return true
 }
 
 func (t Tuple) initPayload() map[string]any {
@@ -109,8 +175,8 @@ func (t Tuple) initPayload() map[string]any {
 func (t Tuple) path() string { return fmt.Sprintf("/e%d", t.Endpoint) }
 
 // canonical is the tuple as the upstream can observe it on a connection: transport, path, the
-// offered subprotocol list (distinguishes auto from an explicit protocol), header value and init
-// payload. Two tuples are equal iff their canonical strings are equal.
+// offered subprotocol list (distinguishes auto from an explicit protocol), every header value in
+// order and the init payload. Two tuples are equal iff their canonical strings are equal.
 func (t Tuple) canonical() string {
 	if t.SSE {
 		m := "POST"
@@ -144,9 +210,7 @@ func canonJSON(v any) string {
 
 func (t Tuple) options(base string) common.Options {
 	o := common.Options{}
-	if h := t.headerValue(); h != "" {
-		o.Headers = http.Header{"X-T": []string{h}}
-	}
+	o.Headers = t.headers()
 	if t.SSE {
 		o.Endpoint = base + t.path()
 		o.Transport = common.TransportSSE
